@@ -261,6 +261,7 @@ pub const CORPUS: &[(&str, &str)] = &[
     ("graph-edge-less-node-first", "min sum((i, n) in enumerate(nodes(G))) { cost[i] * x_n }\ns.t.\n    x_n >= 1 for n in nodes(G)\nwhere\n    let cost = [5, 7, 11]\n    let G = Graph {\n        T,\n        S -> [T: 2, M],\n        M -> [T]\n    }\ndefine\n    x_n as Real(0, 3) for n in nodes(G)\n"),
     ("index-fragment-equals-a-variable-name", "min sum(s in keys) { x_s } + a + b + positive\ns.t.\n    x_s >= a for s in keys\n    abs { y - 2 } >= z\n    a or b or positive\nwhere\n    let keys = [\"a\", \"b\"]\ndefine\n    x_s as Real(0, 4) for s in keys\n    y as Real(0, 4)\n    z as Real(0, 1)\n    a, b, positive as Boolean\n"),
     ("row-bounds-an-auxiliary", "min y + b\ns.t.\n    abs { y - 2 } >= 1\ndefine\n    y as Real(0, 4)\n    b as Boolean\n"),
+    ("generated-lp-row-names-against-user-names", "min x + y\ns.t.\n    x + y >= 1\n    c1: x <= 4\n    c1_3: y <= 4\n    x - y <= 2\n    c4: x >= 0\n    c4_2: y >= 0\n    c4_4: x + 2 * y >= 1\ndefine\n    x, y as Real(0, 9)\n"),
     ("zip-unequal-lengths", "min sum((p, q) in zip(A, B)) { p * x + q } + sum((q, p) in zip(B, A)) { q * x } + sum((p, q, r) in zip(A, B, C)) { (p + q + r) * x }\ns.t.\n    x >= p - q for (p, q) in zip(A, B)\nwhere\n    let A = [1, 2, 3]\n    let B = [4, 5]\n    let C = [6]\ndefine\n    x as Real(0, 9)\n"),
     ("function-constants", "min sum(i in R) { x_i } + sum((v, k) in EN) { v * x_k } + L * x_0\ns.t.\n    x_i >= 1 for i in R\n    x_i <= 8 for i in range(0, 2, closed)\n    x_i >= 0 for i in range(1, 2, not closed)\n    x_0 <= len(range(0, 4, true)) + len(U)\nwhere\n    let R = range(0, 3, false)\n    let closed = true\n    let EN = enumerate([4, 5])\n    let L = len([1, 2])\n    let U = union([1, 2], [2, 3])\ndefine\n    x_i as Real(0, 9) for i in 0..3\n"),
     ("long-multibyte-line", "min sum((c, i) in enumerate([\"\u{141}\u{f3}d\u{17a}\", \"K\u{f8}benhavn\", \"\u{17d}ilina\", \"\u{10c}esk\u{e9} Bud\u{11b}jovice\", \"\u{c5}lesund\", \"\u{d3}buda\", \"\u{15e}anl\u{131}urfa\"])) { (i + 1) * x_i }\ns.t.\n    x_i >= len([\"\u{141}\u{f3}d\u{17a}\", \"K\u{f8}benhavn\", \"\u{17d}ilina\", \"\u{10c}esk\u{e9} Bud\u{11b}jovice\", \"\u{c5}lesund\", \"\u{d3}buda\", \"\u{15e}anl\u{131}urfa\"]) - 7 for i in 0..7\ndefine\n    x_i as Real(0, 9) for i in 0..7\n"),
